@@ -450,6 +450,151 @@ theorem obs_safe_needed :
     (ModuleTree.apply {} 10 (eraseSow readsOwnSow) .tt Vars.empty [] 0).result.toOption.map (·.1) = some 0 := by
   decide +kernel
 
+/-! ## a program with a dict-valued write over a subtree (used below and in the examples) -/
+
+/-- a dict-valued write over a submodule's subtree, two levels above a counter that is then updated
+again (re-called child): the later update is what `apply` returns — 10 restored, then 11 -/
+def restoreDemo : SProg :=
+  .seq (.child "C" (some "c")
+    (.seq (.child "G" (some "g")
+      (.seq (.var "state" "count" [] (.const 0)) <|
+       .seq (.put "state" [] "count" (.add (.loc 0) (.const 1))) <|
+       .seq (.get "state" "count") <| .ret (.loc 1))) <|
+     .seq (.call 0 .arg none) <| .ret (.loc 0))) <|
+  .seq (.call 0 .arg none) <|
+  .seq (.put "state" ["c", "g"] "count" (.const 10)) <|
+  .seq (.call 0 .arg none) <| .ret (.loc 1)
+
+/-! ## scope objects that leak out of the call (`Scope.temporary` / `invalidate` / `_check_valid`) -/
+
+private theorem checked_frame {α : Type} (h : Handle) (op : Op α) (hop : ∀ s, Frame s (op s).2) (s : Store) :
+    Frame s (checked h op s).2 := by
+  unfold checked
+  split
+  · exact Frame.refl s
+  · exact hop s
+
+private theorem leakedOp_frame (h : Handle) (r : Res) (op : LeakOp) (s : Store) : Frame s (leakedOp h r op s).2 := by
+  cases op with
+  | put col n v => exact checked_frame h _ (putVar_frame h.path col n v) s
+  | get col n => exact Frame.refl s
+  | var col n iv =>
+    simp only [leakedOp]
+    split
+    · exact Frame.refl s
+    · split
+      · exact Frame.refl s
+      · split
+        · split <;> exact Frame.refl s
+        · exact checked_frame h _ (putVar_frame h.path col n iv) s
+  | param n shape init =>
+    simp only [leakedOp]
+    split
+    · exact Frame.refl s
+    · split
+      · split
+        · exact Frame.refl s
+        · split <;> exact Frame.refl s
+      · split
+        · split <;> exact Frame.refl s
+        · rename_i hm
+          split
+          · exact Frame.refl s
+          · have hm' : inFilter s.mutable "params" = true := by unfold isMutable at hm; simpa using hm
+            unfold checked
+            split
+            · exact Frame.refl s
+            · exact (frame_bump_inits s hm').trans (putVar_frame h.path "params" n (Val.full shape init) _)
+  | push name =>
+    apply checked_frame
+    intro s'
+    split <;> exact Frame.refl s'
+  | rewound => exact checked_frame h _ (fun s' => Frame.refl s') s
+
+private theorem leakedOps_frame (h : Handle) (r : Res) : ∀ (ops : List LeakOp) (s : Store), Frame s (leakedOps h r ops s) := by
+  intro ops
+  induction ops with
+  | nil => intro s; exact Frame.refl s
+  | cons op rest ih => intro s; exact (leakedOp_frame h r op s).trans (ih _)
+
+/-- **A leaked root scope is dead.**  After `apply`/`init` returned, the root `Scope` object that was
+handed to the function is invalidated: whatever is tried on it changes nothing, and every operation
+that goes through `_check_valid` — `put_variable`, `push`, `rewound`, and `variable`/`param` as soon as
+they would have to create something — raises `InvalidScopeError`. -/
+theorem leaked_scope_invalid (h : Handle) (hinv : h.invalid = true) (r : Res) (s : Store) :
+    (∀ op, (leakedOp h r op s).2 = s) ∧
+    (∀ col n v, leakedOp h r (.put col n v) s = (.error .invalidScope, s)) ∧
+    (∀ name, leakedOp h r (.push name) s = (.error .invalidScope, s)) ∧
+    leakedOp h r .rewound s = (.error .invalidScope, s) ∧
+    (∀ col n iv, nameReserved r n (some col) = false → hasVar s h.path col n = false →
+      inFilter s.mutable col = true → leakedOp h r (.var col n iv) s = (.error .invalidScope, s)) ∧
+    (∀ n shape init, nameReserved r n (some "params") = false → getVar s h.path "params" n = none →
+      inFilter s.mutable "params" = true → "params" ∈ s.rngs →
+      (leakedOp h r (.param n shape init) s).1 = .error .invalidScope) := by
+  refine ⟨?_, ?_, ?_, ?_, ?_, ?_⟩
+  · intro op
+    cases op with
+    | put col n v => simp [leakedOp, hPut, checked, hinv]
+    | get col n => rfl
+    | var col n iv =>
+      simp only [leakedOp, hPut, checked, hinv, if_true]
+      split
+      · rfl
+      · split
+        · rfl
+        · split
+          · split <;> rfl
+          · rfl
+    | param n shape init =>
+      simp only [leakedOp, hPut, checked, hinv, if_true]
+      split
+      · rfl
+      · split
+        · split
+          · rfl
+          · split <;> rfl
+        · split
+          · split <;> rfl
+          · split
+            · rfl
+            · rfl
+    | push name => simp [leakedOp, checked, hinv]
+    | rewound => simp [leakedOp, checked, hinv]
+  · intro col n v; simp [leakedOp, hPut, checked, hinv]
+  · intro name; simp [leakedOp, checked, hinv]
+  · simp [leakedOp, checked, hinv]
+  · intro col n iv hfree habs hm
+    simp [leakedOp, reserve, hfree, habs, isMutable, hm, hPut, checked, hinv]
+  · intro n shape init hfree habs hm hrng
+    simp [leakedOp, reserve, hfree, habs, isMutable, hm, hrng, checked, hinv]
+
+/-- `temporary()` invalidates exactly the root scope object -/
+theorem leaked_root_is_invalid : Handle.leakedRoot.invalid = true := rfl
+
+/-- **No leaked scope can reach the caller's variables.**  The code invalidates the *root* scope object
+only; a child `Scope` (from `push`/`rewound`, or the `scope` of a submodule) that user code kept stays
+usable.  Still, after `apply`, any sequence of operations through any leaked scope object — valid or
+not, succeeding or raising — writes into no dict of the caller and leaves every collection outside
+`mutable` reading exactly as passed in. -/
+theorem leaked_scope_cannot_touch_inputs (cfg : Cfg) (fuel : Nat) (p : SProg) (m : LFilter) (V : Vars)
+    (rngs : List String) (x : Int) (h : Handle) (r : Res) (ops : List LeakOp) :
+    (leakedOps h r ops (ModuleTree.apply cfg fuel p m V rngs x).final).dirty = false ∧
+    ∀ c rest, inFilter (effMutable cfg m) c = false →
+      lookupP (c :: rest) (leakedOps h r ops (ModuleTree.apply cfg fuel p m V rngs x).final).vars
+        = lookupP (c :: rest) V.vars := by
+  have f := (apply_frame cfg fuel p m V rngs x).trans (leakedOps_frame h r ops _)
+  exact ⟨by rw [f.dirty (owned_bind _ V rngs)]; rfl, fun c rest hc => f.imm c rest hc⟩
+
+/-- the behaviour of the code as it is: a leaked *child* scope is not invalidated and can still update
+the (temporary, scope-owned) tree of a mutable collection after the call has returned -/
+theorem leaked_child_still_writes :
+    let o := ModuleTree.apply {} 50 restoreDemo (.name "state")
+      ⟨["state"], [(["state", "c", "g", "count"], .tensor [] [0])]⟩ [] 1
+    leakedOp (Handle.leakedChild ["c", "g"]) [] (.put "state" "count" (.tensor [] [99])) o.final
+      = (.ok (), { o.final with vars := [(["state", "c", "g", "count"], .tensor [] [99])] }) ∧
+    leakedOp Handle.leakedRoot [] (.put "state" "count" (.tensor [] [99])) o.final = (.error .invalidScope, o.final) := by
+  decide +kernel
+
 /-! ## the evaluator's fuel is not a hidden hypothesis -/
 
 /-- **More fuel never changes a result.** Every theorem above holds for every amount of fuel; a run
@@ -513,19 +658,6 @@ example : (eval demoCfg 100 demo [] 5 {} (Scope.bind initDefault Vars.empty ["pa
 example : ObsSafe demoCfg demo ∧
     (ModuleTree.init (quiet demoCfg) 100 (eraseSow demo) initDefault ["params"] 5).result.toOption.map (·.1) = some 25 := by
   decide +kernel
-
-/-- a dict-valued write over a submodule's subtree, two levels above a counter that is then updated
-again (re-called child): the later update is what `apply` returns — 10 restored, then 11 -/
-def restoreDemo : SProg :=
-  .seq (.child "C" (some "c")
-    (.seq (.child "G" (some "g")
-      (.seq (.var "state" "count" [] (.const 0)) <|
-       .seq (.put "state" [] "count" (.add (.loc 0) (.const 1))) <|
-       .seq (.get "state" "count") <| .ret (.loc 1))) <|
-     .seq (.call 0 .arg none) <| .ret (.loc 0))) <|
-  .seq (.call 0 .arg none) <|
-  .seq (.put "state" ["c", "g"] "count" (.const 10)) <|
-  .seq (.call 0 .arg none) <| .ret (.loc 1)
 
 example : (ModuleTree.apply {} 50 restoreDemo (.name "state")
       ⟨["state"], [(["state", "c", "g", "count"], .tensor [] [0])]⟩ [] 1).result
